@@ -182,13 +182,13 @@ pub fn exec(func: &str, a: &mut Args) -> String {
         "w_cp_cp_ball" => { let r = a.f(); let s = sh(a); let m = d3::iso(a); let p = a.f();
             fcp(&details::closest_points_convex_polyhedron_ball(&m, &*dynsh(&s), &Ball::new(r), p)) }
         // ---- free functions through the real dispatcher, closed-form routes (bit-exact) : s1 pos1 s2 pos2 [param]
-        "q_contact" => { let s1 = sh(a); let p1 = d3::iso(a); let s2 = sh(a); let p2 = d3::iso(a); let p = a.f();
+        "q_contact" | "x_contact" => { let s1 = sh(a); let p1 = d3::iso(a); let s2 = sh(a); let p2 = d3::iso(a); let p = a.f();
             res(query::contact(&p1, &*dynsh(&s1), &p2, &*dynsh(&s2), p), fcontact) }
-        "q_distance" => { let s1 = sh(a); let p1 = d3::iso(a); let s2 = sh(a); let p2 = d3::iso(a);
+        "q_distance" | "x_distance" => { let s1 = sh(a); let p1 = d3::iso(a); let s2 = sh(a); let p2 = d3::iso(a);
             res(query::distance(&p1, &*dynsh(&s1), &p2, &*dynsh(&s2)), |x| ff(*x)) }
-        "q_it" => { let s1 = sh(a); let p1 = d3::iso(a); let s2 = sh(a); let p2 = d3::iso(a);
+        "q_it" | "x_it" => { let s1 = sh(a); let p1 = d3::iso(a); let s2 = sh(a); let p2 = d3::iso(a);
             res(query::intersection_test(&p1, &*dynsh(&s1), &p2, &*dynsh(&s2)), |x| b(*x).to_string()) }
-        "q_cp" => { let s1 = sh(a); let p1 = d3::iso(a); let s2 = sh(a); let p2 = d3::iso(a); let p = a.f();
+        "q_cp" | "x_cp" => { let s1 = sh(a); let p1 = d3::iso(a); let s2 = sh(a); let p2 = d3::iso(a); let p = a.f();
             nopanic(|| res(query::closest_points(&p1, &*dynsh(&s1), &p2, &*dynsh(&s2), p), fcp)) }
         // ---- oracle-only: any supported pair (composites included); evaluations A=(1,2) B=(2,1) C=(g·1, g·2) and
         //      D = dispatcher form (pos12, then back-transform) ; witnesses are followed by `@ m1 m2`, the distance of each
@@ -409,6 +409,153 @@ pub fn gen_param(r: &mut Rng, lat: bool) -> f64 {
     if lat { *r.pick(&[0.0, 0.25, 0.5, 1.0, 4.0]) } else if r.below(5) == 0 { 0.0 } else { r.logu(1e-3, 1e2) }
 }
 
+// ------------------------------------------------------------------ degenerate-but-valid corners (C20 follow-up)
+/// number of corner families of `gen_corner`
+pub const N_CORNERS: usize = 18;
+pub fn is_identity_rot(m: &Isometry<Real>) -> bool { m.rotation.i == 0.0 && m.rotation.j == 0.0 && m.rotation.k == 0.0 }
+/// A shape and a point of its own frame lying exactly ON one of its features (or, for the cuboid, also inside it):
+///  0-2 segment parallel to axis k: interior point      3 axis-parallel segment: end point
+///  4 oblique segment: interior point                   5 oblique segment: end point
+///  6 triangle: face interior   7 triangle: edge interior   8 triangle: vertex
+///  9 cuboid: centre   10 cuboid: inside, on a medial plane / equidistant from two or three faces   11 cuboid: face
+///  12 cuboid: edge    13 cuboid: vertex
+///  14 capsule: axis interior   15 capsule: axis end point
+///  16 ball: its centre (coincident ball centres; radii equal to the other ball's / zero are chosen by the caller)
+///  17 triangle in a coordinate plane (exact projections): face interior / edge / vertex
+/// `lat`: dyadic data (the point is on the feature exactly, all arithmetic exact); otherwise random data (on the feature up to rounding).
+pub fn gen_corner(r: &mut Rng, lat: bool, k: usize) -> (Sh, Point<Real>) {
+    let c = |r: &mut Rng| if lat { quarter(r, 8) } else { r.uniform(-3.0, 3.0) };
+    let u = |r: &mut Rng| if lat { *r.pick(&[0.25, 0.5, 0.75]) } else { r.uniform(0.05, 0.95) };
+    let e = |r: &mut Rng| if lat { *r.pick(&[0.25, 0.5, 1.0, 1.5, 2.0]) } else { r.logu(0.05, 5.0) };
+    match k {
+        0 | 1 | 2 | 3 => {
+            let ax = if k == 3 { r.below(3) as usize } else { k };
+            let a = Point::new(c(r), c(r), c(r));
+            let mut bb = a; let len = if lat { *r.pick(&[0.5, 1.0, 3.0, -2.0, -0.25]) } else { r.uniform(0.1, 4.0) * if r.bool() { 1.0 } else { -1.0 } };
+            bb[ax] += len;
+            let p = if k == 3 { if r.bool() { a } else { bb } } else { let mut p = a; p[ax] += len * u(r); p };
+            (Sh::Segment(a, bb), p)
+        }
+        4 | 5 => loop {
+            let a = Point::new(c(r), c(r), c(r));
+            let d = if lat { Vector::new(quarter(r, 8), quarter(r, 8), quarter(r, 8)) } else { Vector::new(r.uniform(-3.0, 3.0), r.uniform(-3.0, 3.0), r.uniform(-3.0, 3.0)) };
+            if d.iter().filter(|x| **x != 0.0).count() < 2 || d.norm() < 0.2 { continue; }
+            let bb = a + d;
+            let p = if k == 5 { if r.bool() { a } else { bb } } else { a + d * u(r) };
+            break (Sh::Segment(a, bb), p);
+        },
+        6 | 7 | 8 | 17 => loop {
+            let (a, bb, cc) = if k == 17 {
+                // a triangle in a plane orthogonal to a coordinate axis
+                let ax = r.below(3) as usize; let h = c(r);
+                let mut f = |r: &mut Rng| { let mut p = Point::new(c(r), c(r), c(r)); p[ax] = h; p };
+                (f(r), f(r), f(r))
+            } else { (Point::new(c(r), c(r), c(r)), Point::new(c(r), c(r), c(r)), Point::new(c(r), c(r), c(r))) };
+            if (bb - a).cross(&(cc - a)).norm() < 0.1 { continue; }
+            let sub = if k == 17 { 6 + r.below(3) as usize } else { k };
+            let p = match sub {
+                6 => { let (s, t) = if lat { *r.pick(&[(0.25, 0.25), (0.5, 0.25), (0.25, 0.5), (0.125, 0.125)]) } else { let s = r.uniform(0.05, 0.9); (s, r.uniform(0.02, 0.98 - s)) };
+                       a + (bb - a) * s + (cc - a) * t }
+                7 => { let t = u(r); match r.below(3) { 0 => a + (bb - a) * t, 1 => bb + (cc - bb) * t, _ => cc + (a - cc) * t } }
+                _ => *r.pick(&[a, bb, cc]),
+            };
+            break (Sh::Triangle(a, bb, cc), p);
+        },
+        9 | 10 | 11 | 12 | 13 => {
+            let he = Vector::new(e(r), e(r), e(r));
+            let sg = |r: &mut Rng| if r.bool() { 1.0 } else { -1.0 };
+            // a coordinate strictly inside (-h, h)
+            let ins = |r: &mut Rng, h: f64| if lat { h * *r.pick(&[-0.5, -0.25, 0.0, 0.25, 0.5]) } else { h * r.uniform(-0.9, 0.9) };
+            let p = match k {
+                9 => Point::origin(),
+                10 => match r.below(3) {
+                    // on a medial plane, equidistant from two opposite faces of the thinnest direction when the other coordinates are central
+                    0 => { let mut p = Point::new(ins(r, he.x), ins(r, he.y), ins(r, he.z)); p[r.below(3) as usize] = 0.0; p }
+                    // same depth below two or three faces
+                    1 => { let m = he.min() * if lat { 0.5 } else { r.uniform(0.1, 0.9) }; Point::new(sg(r) * (he.x - m), sg(r) * (he.y - m), sg(r) * (he.z - m)) }
+                    _ => Point::new(ins(r, he.x), ins(r, he.y), ins(r, he.z)),
+                },
+                11 => { let ax = r.below(3) as usize; let mut p = Point::new(ins(r, he.x), ins(r, he.y), ins(r, he.z)); p[ax] = sg(r) * he[ax]; p }
+                12 => { let ax = r.below(3) as usize; let mut p = Point::new(sg(r) * he.x, sg(r) * he.y, sg(r) * he.z); p[ax] = ins(r, he[ax]); p }
+                _ => Point::new(sg(r) * he.x, sg(r) * he.y, sg(r) * he.z),
+            };
+            (Sh::Cuboid(he), p)
+        }
+        14 | 15 => loop {
+            let a = Point::new(c(r), c(r), c(r));
+            let d = if r.below(3) == 0 { let mut d = Vector::zeros(); d[r.below(3) as usize] = if lat { *r.pick(&[1.0, -2.0, 0.5]) } else { r.uniform(0.2, 3.0) }; d }
+                    else if lat { Vector::new(quarter(r, 8), quarter(r, 8), quarter(r, 8)) } else { Vector::new(r.uniform(-3.0, 3.0), r.uniform(-3.0, 3.0), r.uniform(-3.0, 3.0)) };
+            if d.norm() < 0.2 { continue; }
+            let bb = a + d;
+            let p = if k == 15 { if r.bool() { a } else { bb } } else { a + d * u(r) };
+            break (Sh::Capsule(a, bb, e(r).min(2.0)), p);
+        },
+        _ => (Sh::Ball(e(r)), Point::origin()),
+    }
+}
+/// One corner configuration: the shape of family `k`, a ball whose centre is the chosen point of the shape, poses with
+/// rotations (never both identity; exact ones in the lattice stream so that "exactly on" stays exact through
+/// `pos1.inv_mul(pos2)`), and a prediction / margin.  Random stream: a quarter of the cases are pushed off the feature
+/// by 1e-14 .. 1e-2 in a random direction (near-degenerate instead of degenerate).
+pub fn gen_corner_case(r: &mut Rng, lat: bool, k: usize) -> ((Sh, Isometry<Real>), (Sh, Isometry<Real>), f64) {
+    let (shape, lp) = gen_corner(r, lat, k);
+    let mut rad = if lat { *r.pick(&[0.25, 0.5, 1.0, 2.0]) } else { r.logu(0.05, 5.0) };
+    if k == 16 {
+        // coincident ball centres: equal radii, zero radius on one / both sides, or unrelated radii
+        if let Sh::Ball(r1) = &shape { match r.below(4) { 0 => rad = *r1, 1 => rad = 0.0, _ => {} } }
+    }
+    let shape = if k == 16 && r.below(4) == 0 { Sh::Ball(0.0) } else { shape };
+    let (ps, pb) = loop {
+        let (ps, qb) = if lat {
+            (iso_of(exact_quat(r), Vector::new(quarter(r, 40), quarter(r, 40), quarter(r, 40))), exact_quat(r))
+        } else { (d3::gen_iso(r, false, 20.0), d3::gen_quat(r, false)) };
+        let mut centre = (ps * lp).coords;
+        if !lat && r.below(4) == 0 { centre += gen_normal(r, false) * r.logu(1e-14, 1e-2); }
+        let pb = iso_of(qb, centre);
+        if !(is_identity_rot(&ps) && is_identity_rot(&pb)) { break (ps, pb); }
+    };
+    let par = if lat { *r.pick(&[0.0, 0.25, 1.0]) } else { gen_param(r, false).min(10.0) };
+    ((shape, ps), (Sh::Ball(rad), pb), par)
+}
+/// the shape as the first part of a two-part Compound (exact part pose in the lattice stream; the second part is a small
+/// ball far from the corner): the same corner reached through the composite traversal.  Returns the composite and its pose.
+pub fn wrap_in_compound(r: &mut Rng, lat: bool, s: &Sh, pos: &Isometry<Real>) -> (Sh, Isometry<Real>) {
+    let part = if lat { iso_of(exact_quat(r), Vector::new(quarter(r, 8), quarter(r, 8), quarter(r, 8))) } else { d3::gen_iso(r, false, 3.0) };
+    // pos = outer * part  =>  outer = pos * part^-1
+    let outer = pos * part.inverse();
+    let far = iso_of([0.0, 0.0, 0.0, 1.0], part.translation.vector + Vector::new(64.0, 0.0, 0.0));
+    (Sh::Compound(vec![(part, s.clone()), (far, Sh::Ball(0.25))]), outer)
+}
+/// C03 lines of one corner configuration: the four free functions in both argument orders (exact referee) and the
+/// both-orders / common-isometry / dispatcher-form comparison
+pub fn push_corner_lines(r: &mut Rng, lat: bool, k: usize, v: &mut Vec<(String, String)>) {
+    let ((s1, p1), (s2, p2), par) = gen_corner_case(r, lat, k);
+    for (a, pa, bb, pb) in [(&s1, &p1, &s2, &p2), (&s2, &p2, &s1, &p1)] {
+        let sw = format!("{} {} {} {}", hsh(a), d3::hiso(pa), hsh(bb), d3::hiso(pb));
+        v.push(("x_contact".into(), format!("{} {}", sw, hx(par))));
+        v.push(("x_cp".into(), format!("{} {}", sw, hx(par))));
+        v.push(("x_distance".into(), sw.clone()));
+        v.push(("x_it".into(), sw));
+    }
+    let g = if lat { iso_of(exact_quat(r), Vector::new(quarter(r, 40), quarter(r, 40), quarter(r, 40))) } else { d3::gen_iso(r, false, 100.0) };
+    let (a, pa, bb, pb) = if r.bool() { (&s1, &p1, &s2, &p2) } else { (&s2, &p2, &s1, &p1) };
+    let sw = format!("{} {} {} {} {}", hsh(a), d3::hiso(pa), hsh(bb), d3::hiso(pb), d3::hiso(&g));
+    v.push(("o_contact".into(), format!("{} {}", sw, hx(par))));
+    v.push(("o_cp".into(), format!("{} {}", sw, hx(par))));
+    v.push(("o_distance".into(), sw.clone()));
+    v.push(("o_it".into(), sw));
+    // the same corner through a Compound part (composite traversal, both orders inside o_*)
+    if !matches!(s1, Sh::Ball(_)) {
+        let (c1, q1) = wrap_in_compound(r, lat, &s1, &p1);
+        let (a, pa, bb, pb) = if r.bool() { (&c1, &q1, &s2, &p2) } else { (&s2, &p2, &c1, &q1) };
+        let sw = format!("{} {} {} {} {}", hsh(a), d3::hiso(pa), hsh(bb), d3::hiso(pb), d3::hiso(&g));
+        v.push(("o_contact".into(), format!("{} {}", sw, hx(par))));
+        v.push(("o_cp".into(), format!("{} {}", sw, hx(par))));
+        v.push(("o_distance".into(), sw.clone()));
+        v.push(("o_it".into(), sw));
+    }
+}
+
 pub fn gen(r: &mut Rng, thorough: bool) -> Vec<(String, String)> {
     let n = if thorough { 3000 } else { 300 };
     let mut v: Vec<(String, String)> = Vec::new();
@@ -594,6 +741,29 @@ pub fn gen(r: &mut Rng, thorough: bool) -> Vec<(String, String)> {
     // ---- follow-up 2 (appended after the loop so that the cases above are unchanged for a given seed):
     //      edge/edge configurations, closed-form cuboid/cuboid separating-axis functions
     for it in 0..n { gen_edge_families(r, it, &mut v); }
+    // ---- degenerate-but-valid corners: ball centre exactly on a feature of the other shape (segment / triangle / cuboid /
+    //      capsule axis / another ball's centre), both argument orders, rotated poses; lattice (exact) and random halves.
+    //      Appended after the main loop so that the stream above is unchanged.
+    let reps = if thorough { 60 } else { 6 };
+    for rep in 0..reps {
+        for k in 0..N_CORNERS { push_corner_lines(r, rep % 2 == 0, k, &mut v); }
+    }
+    // coincident ball centres on the closed-form (bit-exact) routes: equal / zero / unrelated radii
+    for rep in 0..reps * 4 {
+        let lat = rep % 2 == 0;
+        let ((s1, p1), (s2, p2), par) = gen_corner_case(r, lat, 16);
+        let pos12 = p1.inv_mul(&p2);
+        let ss = format!("{} {} {}", hsh(&s1), hsh(&s2), d3::hiso(&pos12));
+        v.push(("d_contact".into(), format!("{} {}", ss, hx(par))));
+        v.push(("d_distance".into(), ss.clone()));
+        v.push(("d_it".into(), ss.clone()));
+        v.push(("d_cp".into(), format!("{} {}", ss, hx(par))));
+        let sw = format!("{} {} {} {}", hsh(&s1), d3::hiso(&p1), hsh(&s2), d3::hiso(&p2));
+        v.push(("q_contact".into(), format!("{} {}", sw, hx(par))));
+        v.push(("q_distance".into(), sw.clone()));
+        v.push(("q_it".into(), sw.clone()));
+        v.push(("q_cp".into(), format!("{} {}", sw, hx(par))));
+    }
     v
 }
 
